@@ -142,7 +142,7 @@ class ExprMixin:
             return st.env[name]
         return self.resolve_global(name, st)
 
-    BUILTIN_CLASSES = {"int", "bool", "str", "bytes", "float", "list", "tuple", "dict", "set", "frozenset",
+    BUILTIN_CLASSES = {"int", "bool", "str", "bytes", "float", "complex", "bytearray", "memoryview", "list", "tuple", "dict", "set", "frozenset",
                        "object", "type", "Exception", "KeyError", "IndexError", "TypeError", "ValueError",
                        "AssertionError", "AttributeError", "NotImplementedError", "StopIteration",
                        "BaseException", "LookupError", "RuntimeError", "FileNotFoundError", "OSError"}
@@ -624,6 +624,12 @@ class ExprMixin:
             x = fresh("px", V)
             st.assume(z3.ForAll([x], seq_contains(perm, x) == seq_contains(sym.t, x)))
             st.assume(Q.Length(perm) == Q.Length(sym.t))
+            # every member is visited: it has a position in the iteration order
+            binders = st.notes.get("binders") or []
+            pidx = z3.Function(fresh_name("pidx"), *[b.sort() for b in binders], V, IntS)
+            pi = lambda y: pidx(*binders, y)
+            st.assume(z3.ForAll([x], z3.Implies(seq_contains(perm, x), z3.And(0 <= pi(x), pi(x) < Q.Length(perm), Q.At(perm, pi(x)) == x)),
+                                patterns=[seq_contains(perm, x)]))
             self._assume_distinct(st, perm)
             self.collector.order_oracles.append((self.kernel.qualname, getattr(node, "lineno", 0)))
             return IterView(Q.Length(perm), lambda k, st_: unbox(es, Q.At(perm, k), st_), perm, es)
